@@ -52,7 +52,7 @@ class Schedules(Part):
         # free-running stress: random objective durations, 2-8 workers, SQLite attached, batches up to 40
         for _ in range(20 if ctx.quick else 400):
             cases.append({"kind": "stress", "n": rng.randint(2, 40), "workers": rng.randint(2, 8), "db": True,
-                          "faulty": rng.random() < 0.3, "contention": rng.random() < 0.4, "cseed": rng.randrange(1 << 30)})
+                          "faulty": rng.random() < 0.3, "contention": rng.random() < 0.4, "foreign_lock": rng.random() < 0.4, "cseed": rng.randrange(1 << 30)})
         return cases
 
     def run_case(self, ctx, case):
@@ -166,11 +166,32 @@ class Schedules(Part):
                     return getattr(self._c, name)
             sqlite3.connect = lambda *a, **k: Conn(real_connect(*a, **k))
             restore = (sqlite3, real_connect)
+        foreign = None
+        if case.get("foreign_lock") and db:
+            # another process (a result browser, a backup, a second study) holds the write lock of the file for a few hundred milliseconds
+            # while the batch is being evaluated: the workers wait for it, nothing else changes
+            import sqlite3 as _sq
+            connect0 = restore[1] if restore else _sq.connect
+
+            def hold():
+                time.sleep(srng.choice([0.0, 0.005, 0.02]))
+                try:
+                    con = connect0(db, timeout=30, isolation_level=None)
+                    con.execute("BEGIN EXCLUSIVE")
+                    time.sleep(1.2)
+                    con.execute("COMMIT")
+                    con.close()
+                except Exception:      # noqa -- the holder itself is not under test
+                    pass
+            foreign = threading.Thread(target=hold, daemon=True)
+            foreign.start()
         try:
             exc = jobrec.evaluate_batch(rec, workers=workers)
         finally:
             if restore:
                 restore[0].connect = restore[1]
+            if foreign is not None:
+                foreign.join(10)
         rec.end_event(exc)
         return rec.events + rec.signed_events()
 
